@@ -85,6 +85,17 @@ class Ctx:
             self.violated(rule, construct, where, detail, key, facts)
         return ok
 
+    def check3(self, state, rule, construct, where="", ok_detail="", bad_detail="", unknown_detail="", key="", facts=None):
+        """state True -> HOLDS, False -> VIOLATED (a recognised construct contradicts the oracle),
+        None -> INCONCLUSIVE (the code has a shape the rule does not recognise)"""
+        if state is True:
+            self.holds(rule, construct, where, ok_detail, key)
+        elif state is False:
+            self.violated(rule, construct, where, bad_detail, key, facts)
+        else:
+            self.inconclusive(rule, construct, where, unknown_detail or "shape not recognised", key)
+        return state
+
     def assume(self, s):
         if s not in self.assumptions:
             self.assumptions.append(s)
